@@ -148,8 +148,14 @@ def _gen_case(rng, tier, g):
             row = gen_table(rng, 1, minrows=1, nfields=nfr if kind !=
                             'hashrightjoin' else nfl, ragged=False,
                             profile='nonone')[1]
-            edit = [rng.choice(['append', 'delete', 'replace']),
+            edit = [rng.choice(['append', 'delete', 'replace', 'rotate']),
                     rng.randrange(8), row]
+            if edit[0] == 'rotate' and cache and kind in (
+                    'hashjoin', 'hashleftjoin', 'hashrightjoin'):
+                # with a cached lookup, what a pass shows after the build
+                # side changed its *layout* is not defined by anything (the
+                # header is read afresh, the rows are not): rows only
+                edit[0] = 'replace'
         pre_edit = None
         if rng.random() < 0.15:
             # the build side changes after the view was constructed and
@@ -297,6 +303,14 @@ class _Inapplicable(Exception):
 def _edit_rows(data, edit):
     kind_, idx, row = edit
     row = dec_table([row])[0]
+    if kind_ == 'rotate':
+        # the fields of the table change places (header included)
+        n = len(data[0]) if data else 0
+        if n > 1 and all(len(r) == n for r in data):
+            k = 1 + idx % (n - 1)
+            for i, r in enumerate(data):
+                data[i] = list(r[k:]) + list(r[:k])
+        return
     if kind_ == 'append' or len(data) <= 1:
         data.append(list(row))
     elif kind_ == 'delete':
